@@ -574,6 +574,18 @@ class Ctx:
             if l1 >= 0 and l2 >= 0 and h2 != INF and h1 != INF:
                 return (Fr(int(l1) >> int(h2)), Fr(int(h1) >> int(l2)))
             return (-INF, INF)
+        if tag == 'app' and a[1] == 'elem':
+            # element of a sequence built by new/push only: hull of the pushed elements
+            T = a[2][0]
+            los, his = [], []
+            while isinstance(T, tuple) and T and T[0] == 'push' and isinstance(T[2], Poly):
+                l_, h_ = self.rng(T[2])
+                los.append(l_)
+                his.append(h_)
+                T = T[1]
+            if T in (('new',), ('clear',)) and los:
+                return (min(los), max(his))
+            return (-INF, INF)
         if tag == 'wrap':
             # value reduced modulo 2^bits (unsigned wrap-around)
             return (Fr(0), Fr((1 << a[2]) - 1))
